@@ -304,7 +304,10 @@ func (d *simDecompressor) Close() error {
 	}
 	if d.name == "gzip" {
 		if d.gz == nil {
-			return nil
+			// no Reset of this object has ever got past the gzip header. The transcoder's (and connect-go's) default
+			// decompressor is a zero gzip.Reader, which is in exactly this state then; closing it is what the real object
+			// makes of it (a nil dereference inside compress/gzip), so that is what happens here
+			return new(gzip.Reader).Close()
 		}
 		return d.gz.Close()
 	}
